@@ -862,6 +862,45 @@ theorem year_param_partial (year yday : Nat) (h1 : 1 ≤ yday) (h : yday ≤ 365
 /-- the witness: on 2020-12-31 (`tm_yday = 366`) the year parameter is beyond 2021.0 -/
 theorem year_param_leap_dec31_witness : ¬ (yearParam 2020 366 < ((2020 : Int) + 1) * 5844) := by decide
 
+/-! ### validation -/
+
+/-- consecutive bins (sorted by left edge) touch: each right edge is the next left edge, and no two
+bins start at the same place -/
+def Contiguous : List (Int × Int) → Prop
+  | a :: b :: rest => a.2 = b.1 ∧ a.1 ≠ b.1 ∧ Contiguous (b :: rest)
+  | _ => True
+
+/-- the loop of `check_data_complete` accepts exactly the contiguous sequences: an overlap
+(`end > next start`, or a repeated start) and a gap (`end < next start`) are both rejected. -/
+theorem checkConsecutive_ok_iff (l : List (Int × Int)) : checkConsecutive l = .ok () ↔ Contiguous l := by
+  induction l with
+  | nil => simp [checkConsecutive, Contiguous]
+  | cons a l ih =>
+    cases l with
+    | nil => simp [checkConsecutive, Contiguous]
+    | cons b rest =>
+      unfold checkConsecutive Contiguous
+      by_cases h1 : a.2 > b.1 ∨ b.1 = a.1
+      · have : (decide (a.2 > b.1) || b.1 == a.1) = true := by
+          rcases h1 with h | h <;> simp [h]
+        simp only [this, if_true, reduceCtorEq, false_iff, not_and]
+        intro h2 h3
+        rcases h1 with h | h
+        · omega
+        · exact absurd h.symm h3
+      · have : (decide (a.2 > b.1) || b.1 == a.1) = false := by
+          simp only [not_or] at h1
+          simp [h1.1, h1.2]
+        simp only [this, Bool.false_eq_true, if_false]
+        by_cases h2 : a.2 < b.1
+        · simp only [h2, if_true, reduceCtorEq, false_iff, not_and]
+          intro h; omega
+        · simp only [h2, if_false, ih]
+          simp only [not_or] at h1
+          constructor
+          · intro h; exact ⟨by omega, fun h' => h1.2 h'.symm, h⟩
+          · intro h; exact h.2.2
+
 /-! ### non-vacuity -/
 
 def demoRows : List Row :=
